@@ -108,6 +108,8 @@ class err_handler(object):
         self.seg_node_added = False
         self.cur_ele_node = None
         self.cur_line = 0
+        # every segment node in the order in which it was attached to the tree
+        self.attached_seg_nodes = []
 
     def accept(self, visitor):
         """
@@ -212,6 +214,7 @@ class err_handler(object):
                 # Segment outside of any transaction set: nowhere to attach it
                 return
             self.cur_st_node.children.append(self.cur_seg_node)
+            self.attached_seg_nodes.append(self.cur_seg_node)
             self.seg_node_added = True
 
     def add_ele(self, map_node):
@@ -312,6 +315,7 @@ class err_handler(object):
                 else:
                     seg_node = err_seg(st_node, None, st_node.seg_data, 1, st_node.cur_line_st, None)
                     st_node.children.insert(0, seg_node)
+                    self.attached_seg_nodes.append(seg_node)
                 seg_node.add_error(err_cde, err_str, err_value)
                 logger.error('Line:%i SEG:%s - %s' % (st_node.cur_line_st, err_cde, err_str))
                 return
